@@ -27,8 +27,8 @@ def names(maxseg):
 
 
 def _arches():
-    import productmd.common
-    return list(productmd.common.RPM_ARCHES)
+    from mc.models import ids
+    return list(ids.RPM_ARCHES_DOC)
 
 
 def _call(fn, *a):
@@ -105,9 +105,15 @@ def run_unit(unit, acc):
                           "canonical form %r does not parse back to its parts: %s" % (canon, o["parsed"]))
         # Rpms.add files the entry under the canonical key
         if ep is not None:
+            src = arch in ("src", "nosrc")
+            for spelled in ("a-1/b-2.c/" + core, core):                       # (also without the '.rpm' suffix)
+                o2 = eval_add(spelled, arch)
+                acc.ev()
+                if o2["result"] != "ok" or list(list(o2["table"]["Server"]["x86_64"].values())[0]) != [canon]:
+                    acc.violation("add-key", {"kind": "add", "text": spelled, "arch": arch}, o2,
+                                  "Rpms.add(%r) filed %s, expected key %r" % (spelled, o2, canon))
             o = eval_add("Packages/" + core + ".rpm", arch)
             acc.ev()
-            src = arch in ("src", "nosrc")
             want_table = {"Server": {"x86_64": {(canon if src else "srcpkg-0:1-1.src"): {canon: {
                 "sigkey": None, "path": "Packages/x.rpm", "category": "source" if src else "binary"}}}}}
             if o["result"] != "ok" or o["table"] != want_table:
